@@ -158,10 +158,28 @@ func (vc *VC) axiomVocabulary(ax *Axiom) []string {
 					out = append(out, "sf_"+id.Name)
 				}
 			}
+			if sel, ok := call.Fun.(*ast.SelectorExpr); ok && len(call.Args) == 0 {
+				// a pure method x.M(): relevant once some pure-method symbol ...__M is in use
+				out = append(out, "method:"+sel.Sel.Name)
+			}
 		}
 		return true
 	})
 	return out
+}
+
+// vocabularyInUse: has the symbol been declared in this verification unit?
+func (vc *VC) vocabularyInUse(sym string) bool {
+	if strings.HasPrefix(sym, "method:") {
+		suffix := "__" + strings.TrimPrefix(sym, "method:")
+		for k := range vc.d.seen {
+			if strings.HasPrefix(k, "decl_pm_") && strings.HasSuffix(k, suffix) {
+				return true
+			}
+		}
+		return false
+	}
+	return vc.d.seen[sym]
 }
 
 func (vc *VC) flushAxioms() {
@@ -173,7 +191,7 @@ func (vc *VC) flushAxioms() {
 		ready := true
 		voc := vc.axiomVocabulary(ax)
 		for _, sym := range voc {
-			if !vc.d.seen[sym] {
+			if !vc.vocabularyInUse(sym) {
 				ready = false
 				break
 			}
